@@ -277,6 +277,13 @@ def check_unit(name, repo=REPO, outdir=GEN_DIR):
     res = run_verus(path, unit.get("timeout_s", 600))
     for e in res["errors"]:
         e["fn"] = line_to_fn(gen, e["line"]) if e["line"] else "?"
+    # vacuity canary: with --cfg verif_canary the unit contains one deliberately false lemma that must be rejected
+    if "verif_canary" in gen:
+        c = run_verus(path, unit.get("timeout_s", 600), extra=["--cfg", "verif_canary"])
+        bad = [e for e in c["errors"] if line_to_fn(gen, e["line"]) == "canary_false"]
+        res["canary_rejected"] = (not c["ok"]) and len(bad) >= 1
+    else:
+        res["canary_rejected"] = None
     res["unit"] = name
     res["generated"] = path
     res["rewrites"] = rwlog
